@@ -93,6 +93,10 @@ func runScript(sc Script, run int, timeout time.Duration) ([]Line, bool, error) 
 		case "release":
 		case "hpub":
 			// publish and hold the bus's loop between receiving the event and handing it to any subscriber
+			if !s.fanoutsSettled() {
+				s.publish(s.newEvent())
+				break
+			}
 			gate.arm()
 			if s.publish(s.newEvent()) != "ok" || !gate.waitHeld(s.timeout) {
 				gate.release()
